@@ -35,6 +35,7 @@ func init() {
 	register("C16", true, checkC16)
 	register("C01", true, checkC01)
 	register("C06", false, checkC06)
+	register("C12", true, checkC12)
 }
 
 func main() {
